@@ -15,7 +15,7 @@ import (
 // FaultPlan makes the n-th call of one class of file-system operation fail (storage that is
 // full, a disk that reports an I/O error). Classes are "<op>@<role>": op is one of rename,
 // remove, mkdir, create (any open that may write), write, close (of a file opened for writing),
-// open (read-only), stat; role is "data" or "meta". Calls are counted only while the plan is armed.
+// open (read-only), stat, seek, chtimes; role is "data" or "meta". Calls are counted only while the plan is armed.
 type FaultPlan struct {
 	Class  string
 	Nth    int64 // 0-based: the call with this index fails
@@ -235,6 +235,13 @@ func (f *faultFile) WriteAt(b []byte, off int64) (int, error) {
 		return 0, err
 	}
 	return f.File.WriteAt(b, off)
+}
+
+func (f *faultFile) Seek(off int64, whence int) (int64, error) {
+	if err := f.fs.Plan.hit("seek@"+f.role, f.File.Name()); err != nil {
+		return 0, err
+	}
+	return f.File.Seek(off, whence)
 }
 
 func (f *faultFile) Close() error {
